@@ -257,6 +257,10 @@ class GeckoAsyncSpaMan(ABC, AsyncTasks):
         # Only drop the facade once the spa has announced its disconnection, so
         # that the facade teardown event is delivered while the facade exists
         self._facade = None
+        # The sequence pump may have completed a discovery while the disconnections
+        # above were being announced to the client, forget what it found so that
+        # the pump starts again from scratch
+        self._spa_descriptors = None
         self._spa_state = GeckoSpaState.IDLE
 
     async def async_locate_spas(
